@@ -2,25 +2,30 @@
    Property theorems only; proofs are in Proofs1..5.v.
 
    Reading guide.  [run c e prog fin] is the model of RequestHandler + GZipContentEncoding executing
-   the handler program [prog] (set_header / add_header / clear_header / write / flush calls) followed
-   by finish(fin), for the request [e] (GET/HEAD, Accept-Encoding), with the gzip stream [c] (an
-   arbitrary stateful codec).  [outcome_of] reads off what the connection was handed: the Vary,
-   Content-Encoding, Content-Length, Content-Type values of the header block and the chunks.
+   the handler program [prog] (set_status / set_header / add_header / clear_header / write / flush
+   calls) followed by finish(fin), for the request and application [e] (GET/HEAD, Accept-Encoding,
+   compress_response), with the gzip stream [c] (an arbitrary stateful codec).  [outcome_of] reads
+   off what the connection was handed: status code, the Vary, Content-Encoding, Content-Length,
+   Content-Type values of the header block, and the chunks; or [AssertFail] when finish() raised
+   its `assert not self._write_buffer`.
    [codec_ok c gunzip]: for every history of write/flush calls on one gzip file, [gunzip] applied to
    everything it emitted (incl. close) returns the concatenation of the written data.
-   [handler_hdrs prog] = the handler's own headers when the first flush happens;
-   [first_chunk prog fin] = the chunk presented to transform_first_chunk. *)
+   [eff_hdrs prog] = the handler's own headers when the header block is produced (first flush; else
+   finish, after _clear_representation_headers for 204/304/1xx); [status_at prog] its status code;
+   [first_chunk prog fin] = the chunk presented to transform_first_chunk;
+   [assertion_fails prog fin] = nothing flushed, bodiless status, write() called (a handler error). *)
 From Coq Require Import List NArith Bool.
 Import ListNotations.
-From TV Require Import Lib.Obs C29.Model C29.Run C29.Proofs1 C29.Proofs4 C29.Proofs5.
+From TV Require Import Lib.Obs C29.Model C29.Run C29.Proofs1 C29.Proofs4 C29.Proofs5 Gen.C29_src Gen.C29_equiv.
 
 (* Transparency: for EVERY codec satisfying the round-trip hypothesis, every Accept-Encoding and every
-   program of header operations, writes and flushes in which the handler does not set a
+   program of status/header operations, writes and flushes in which the handler does not set a
    Content-Encoding of its own, a response is produced (no gzip call on a closed file) and a client
    decoding the body by the response's Content-Encoding obtains exactly the bytes written. *)
 Theorem C29_decoding_returns_what_was_written :
   forall c gunzip, codec_ok c gunzip -> forall ae prog fin,
-    hmem K_CE (handler_hdrs prog) = false ->
+    assertion_fails prog fin = false ->
+    hmem K_CE (eff_hdrs prog) = false ->
     exists r, outcome_of (run c (GET ae) prog fin) = Resp r /\
               client_decode gunzip r = Some (writes prog ++ fin_bytes fin).
 Proof. exact transparent. Qed.
@@ -28,33 +33,48 @@ Print Assumptions C29_decoding_returns_what_was_written.
 
 (* ... and when the handler did set a Content-Encoding, header and body are left alone. *)
 Theorem C29_handler_content_encoding_left_alone :
-  forall c ae prog fin, hmem K_CE (handler_hdrs prog) = true ->
+  forall c ae prog fin, assertion_fails prog fin = false -> hmem K_CE (eff_hdrs prog) = true ->
     exists r, outcome_of (run c (GET ae) prog fin) = Resp r /\
               concat (r_sent r) = writes prog ++ fin_bytes fin /\
-              r_ce r = hlist K_CE (handler_hdrs prog).
+              r_ce r = hlist K_CE (eff_hdrs prog).
 Proof. exact handler_encoding_untouched. Qed.
 Print Assumptions C29_handler_content_encoding_left_alone.
 
 (* Compression is applied exactly when Accept-Encoding mentions gzip, the (unchanged) Content-Type
-   is compressible, and the response is not a single chunk shorter than MIN_LENGTH = 1024;
-   otherwise no Content-Encoding is added.  GET and HEAD. *)
+   is compressible, the response is not a single chunk shorter than MIN_LENGTH = 1024 and the
+   status can carry a body; otherwise no Content-Encoding is added.  GET and HEAD. *)
 Theorem C29_compressed_iff :
-  forall c head ae prog fin,
-    exists r, outcome_of (run c {| is_head := head; accept_enc := ae |} prog fin) = Resp r /\
-      r_ct r = hlist K_CT (handler_hdrs prog) /\
-      (hmem K_CE (handler_hdrs prog) = false ->
+  forall c head ae prog fin, assertion_fails prog fin = false ->
+    exists r, outcome_of (run c {| is_head := head; accept_enc := ae; compress := true |} prog fin) = Resp r /\
+      r_status r = status_at prog /\
+      r_ct r = hlist K_CT (eff_hdrs prog) /\
+      (hmem K_CE (eff_hdrs prog) = false ->
          (r_ce r = [V_GZIP] \/ r_ce r = []) /\
          (r_ce r = [V_GZIP] <->
             mentions_gzip ae = true /\
             compressible (before_semi (join_comma (r_ct r))) = true /\
-            (has_flush prog = true \/ (MIN_LENGTH <= length (first_chunk prog fin))%nat))).
+            (has_flush prog = true \/ (MIN_LENGTH <= length (first_chunk prog fin))%nat) /\
+            bodiless (r_status r) = false)).
 Proof. exact compressed_iff. Qed.
 Print Assumptions C29_compressed_iff.
 
+(* 204 / 304 / 1xx responses are never encoded, whatever the flush placement, and carry no body
+   byte unless the handler itself wrote one (the defect repaired by /repo 32796e6).  GET and HEAD,
+   with or without compress_response. *)
+Theorem C29_bodiless_status_never_encoded :
+  forall c head ae cp prog fin, assertion_fails prog fin = false ->
+    exists r, outcome_of (run c {| is_head := head; accept_enc := ae; compress := cp |} prog fin) = Resp r /\
+      r_status r = status_at prog /\
+      (bodiless (r_status r) = true ->
+         r_ce r = hlist K_CE (eff_hdrs prog) /\
+         (writes prog ++ fin_bytes fin = [] -> concat (r_sent r) = [])).
+Proof. exact bodiless_never_encoded. Qed.
+Print Assumptions C29_bodiless_status_never_encoded.
+
 (* Vary always lists Accept-Encoding (as a comma-separated, OWS-trimmed element). *)
 Theorem C29_vary_always_includes_accept_encoding :
-  forall c head ae prog fin,
-    exists r, outcome_of (run c {| is_head := head; accept_enc := ae |} prog fin) = Resp r /\
+  forall c head ae prog fin, assertion_fails prog fin = false ->
+    exists r, outcome_of (run c {| is_head := head; accept_enc := ae; compress := true |} prog fin) = Resp r /\
               vary_mentions_ae (r_vary r) = true.
 Proof. exact vary_always. Qed.
 Print Assumptions C29_vary_always_includes_accept_encoding.
@@ -63,23 +83,45 @@ Print Assumptions C29_vary_always_includes_accept_encoding.
    own, the header block has at most one Content-Length and it is the decimal length of the encoded
    body; after a flush before finish there is none. *)
 Theorem C29_content_length_is_encoded_length :
-  forall c ae prog fin,
+  forall c ae prog fin, assertion_fails prog fin = false ->
     exists r, outcome_of (run c (GET ae) prog fin) = Resp r /\
-      ((r_ce r = [V_GZIP] /\ hmem K_CE (handler_hdrs prog) = false) \/ hmem K_CL (handler_hdrs prog) = false ->
+      ((r_ce r = [V_GZIP] /\ hmem K_CE (eff_hdrs prog) = false) \/ hmem K_CL (eff_hdrs prog) = false ->
          (r_cl r = [] \/ r_cl r = [dec_len (concat (r_sent r))]) /\
          (has_flush prog = true -> r_cl r = [])).
 Proof. exact content_length. Qed.
 Print Assumptions C29_content_length_is_encoded_length.
 
-(* A HEAD response carries the header block of the GET response and no body byte. *)
+(* A HEAD response carries the status and header block of the GET response and no body byte
+   (with or without compress_response). *)
 Theorem C29_head_has_get_headers_and_no_body :
-  forall c ae prog fin,
-    exists rH rG, outcome_of (run c (HEAD ae) prog fin) = Resp rH /\
-                  outcome_of (run c (GET ae) prog fin) = Resp rG /\
+  forall c ae cp prog fin, assertion_fails prog fin = false ->
+    exists rH rG, outcome_of (run c (envH ae cp) prog fin) = Resp rH /\
+                  outcome_of (run c (envG ae cp) prog fin) = Resp rG /\
+                  r_status rH = r_status rG /\
                   r_vary rH = r_vary rG /\ r_ce rH = r_ce rG /\ r_cl rH = r_cl rG /\ r_ct rH = r_ct rG /\
                   concat (r_sent rH) = [].
 Proof. exact head_like_get. Qed.
 Print Assumptions C29_head_has_get_headers_and_no_body.
+
+(* Without compress_response (application.transforms = []) the header block and the body are the
+   handler's: no Vary, no encoding, Content-Length as computed by finish(). *)
+Theorem C29_without_compress_response_nothing_is_touched :
+  forall c ae prog fin, assertion_fails prog fin = false ->
+    exists r, outcome_of (run c (envG ae false) prog fin) = Resp r /\
+      r_vary r = hlist K_VARY (final_hdrs prog fin) /\ r_ce r = hlist K_CE (final_hdrs prog fin) /\
+      r_cl r = hlist K_CL (final_hdrs prog fin) /\ r_ct r = hlist K_CT (final_hdrs prog fin) /\
+      concat (r_sent r) = writes prog ++ fin_bytes fin.
+Proof. exact no_transform. Qed.
+Print Assumptions C29_without_compress_response_nothing_is_touched.
+
+(* finish() raises its assertion exactly when nothing was flushed, the status is 204/304/1xx and
+   write() was called; in every other case a response is produced (all theorems above). *)
+Theorem C29_finish_assertion_iff :
+  forall c head ae cp prog fin,
+    outcome_of (run c {| is_head := head; accept_enc := ae; compress := cp |} prog fin) = AssertFail
+    <-> assertion_fails prog fin = true.
+Proof. exact assertion_iff. Qed.
+Print Assumptions C29_finish_assertion_iff.
 
 (* The codec hypothesis is satisfiable: the toy codec used in the correspondence runs (stateful,
    byte-stuffing, length trailer) and the transparent codec both meet it. *)
@@ -91,7 +133,24 @@ Proof. exact sym_ok. Qed.
 Print Assumptions C29_codec_hypothesis_met_by_transparent.
 
 (* The model satisfies the boolean checker that the harness applies to the implementation's
-   observable, on every input. *)
+   observable, on every input (unconditional). *)
 Theorem C29_model_satisfies_checker : forall i, check_case i (run_case i) = true.
 Proof. exact check_case_model. Qed.
 Print Assumptions C29_model_satisfies_checker.
+
+(* The decision logic of the model is the one in the source: Gen/C29_src.v is regenerated from
+   tornado/web.py (class GZipContentEncoding: CONTENT_TYPES, MIN_LENGTH, __init__, _compressible_type,
+   the Vary block, the ctype statement and the `self._gzipping = (...)` expression of
+   transform_first_chunk) by a fail-closed ast translator on every run. *)
+Theorem C29_decision_logic_is_the_source's :
+  src_content_types = CONTENT_TYPES /\ src_min_length = MIN_LENGTH /\
+  (forall e, src_init (accept_enc e) = ae_gzip e) /\
+  (forall ctype, src_compressible ctype = compressible ctype) /\
+  (forall h, src_vary_step h = vary_step h) /\
+  (forall h, src_ctype h = ctype_of h) /\
+  (forall h status chunk finishing, src_decision h status chunk finishing = gzip_decision h status chunk finishing).
+Proof.
+  exact (conj src_content_types_eq (conj src_min_length_eq (conj src_init_eq (conj src_compressible_eq
+        (conj src_vary_step_eq (conj src_ctype_eq src_decision_eq)))))).
+Qed.
+Print Assumptions C29_decision_logic_is_the_source's.
